@@ -294,6 +294,18 @@ func c20Inputs(loader string, r *rand.Rand, n int) [][]byte {
 	if loader != "grb" && len(seeds) > 0 {
 		out = append(out, c20EdgeInputs(seeds[r.Intn(len(seeds))])...)
 	}
+	if loader == "jsonrule" {
+		// operator objects with three operands nested in their own middle operand: whatever the
+		// translator emits must stay proportional to the input
+		for _, depth := range []int{18, 24, 30} {
+			op := []string{"lt", "eq", "plus"}[r.Intn(3)]
+			inner := `"F.A"`
+			for i := 0; i < depth; i++ {
+				inner = `{"` + op + `":["F.A",` + inner + `,"F.B"]}`
+			}
+			out = append(out, []byte(`{"name":"N","desc":"nested","salience":1,"when":{"eq":[`+inner+`,1]},"then":["F.A = 1"]}`))
+		}
+	}
 	if loader == "grl" {
 		// the targeted documents of the acceptance check (empty scopes, unbalanced brackets, cut-off
 		// rules, boundary literals, every escape class): 25 verbatim, and all of them as seeds
